@@ -320,6 +320,11 @@ def w3(chk, op):
             while p is not None:
                 if root in p.params or root in p.local_bindings():
                     local = True
+                    if p.parent is None and _runs_at_import(repo, p):
+                        # a variable of a decorator / factory that runs when the module is imported: what its closure stores there lives
+                        # as long as the process - state shared by every later call
+                        bad.append(f"{fi.key}: {short(node, 60)} stores into `{root}` of {p.qualname}, which runs once at import (decorator / module-level call): the closure keeps state between opens")
+                    break
                 p = p.parent
             if local:
                 continue
@@ -340,6 +345,35 @@ def w3(chk, op):
                 f"module-level state is written on the open path: {bad[:3]}", key="module-state")
     chk.require(not memo, "C10-W3", "open path", "no memoising decorator on the open path",
                 f"memoised functions: {memo[:3]} - a later open returns an earlier result (stale records_per_chunk / cache state)", key="memoised")
+
+
+def _runs_at_import(repo, fn):
+    """is this module-level function applied as a decorator to a definition, or called by a module-level statement, somewhere in the package?"""
+    for m in repo.modules.values():
+        if m.name.endswith(".testing") or ".tests" in m.name:
+            continue
+        for st in ast.walk(m.tree):
+            if isinstance(st, (ast.FunctionDef, ast.ClassDef)):
+                for d in st.decorator_list:
+                    t = d.func if isinstance(d, ast.Call) else d
+                    if isinstance(t, (ast.Name, ast.Attribute)):
+                        try:
+                            r = repo.resolve_expr(m, t)
+                        except Exception:
+                            continue
+                        if r.kind == "func" and r.func is fn:
+                            return True
+        for st in m.tree.body:
+            if isinstance(st, (ast.Assign, ast.Expr, ast.AnnAssign)) and st.value is not None:
+                for c in ast.walk(st.value):
+                    if isinstance(c, ast.Call) and isinstance(c.func, (ast.Name, ast.Attribute)):
+                        try:
+                            r = repo.resolve_expr(m, c.func)
+                        except Exception:
+                            continue
+                        if r.kind == "func" and r.func is fn:
+                            return True
+    return False
 
 
 def w4(chk, op):
